@@ -376,7 +376,11 @@ class Queue(Greenlet):
             for reply, group_env in self._split_by_reply(envelope, replies):
                 reply.message += ' (Too many retries)'
                 self._perm_fail(None, group_env, reply)
-            self._remove(id)
+            # Already inside a storage operation: spawning the removal into a
+            # bounded store pool from here could wait on this very greenlet.
+            self.store.remove(id)
+            self.queued_ids.discard(id)
+            self.active_ids.discard(id)
             return False
         else:
             when = time.time() + wait
